@@ -279,7 +279,11 @@ func (d *TDec) Struct() (*TSt, error) {
 }
 
 // TEnc encodes thrift compact data.
-type TEnc struct{ B []byte }
+type TEnc struct {
+	B []byte
+	// LongForm: every field header is written as type byte + zigzag field id, never as a delta (legal, what some writers do)
+	LongForm bool
+}
 
 func (e *TEnc) uvarint(u uint64) {
 	for u >= 0x80 {
@@ -342,7 +346,7 @@ func (e *TEnc) Struct(s *TSt) {
 			t = TFalse
 		}
 		delta := id - last
-		if delta > 0 && delta <= 15 {
+		if delta > 0 && delta <= 15 && !e.LongForm {
 			e.B = append(e.B, byte(delta<<4)|byte(t))
 		} else {
 			e.B = append(e.B, byte(t))
